@@ -160,6 +160,7 @@ static Plan plan_C03(Rng& r, const std::string&) {
 		for (int e = 0; e < ep; ++e) {
 			TAOpts o; o.max_states = r.chance(1, 6) ? r.range(8, 40) : r.range(1, 6); o.sparse = r.chance(1, 3);
 			if (r.chance(1, 3)) o.flavor = 3 + int(r.below(3));
+			if (r.chance(1, 6)) { o.flavor = 6; if (o.max_states < 4) o.max_states = r.range(4, 8); }
 			TA A = gen_ta(r, pool, o);
 			int a = g.load(A, 0);
 			if (r.chance(1, 3)) g.push(mk(c, "et_copy", {a}), 0);
@@ -372,6 +373,7 @@ static Plan plan_C15(Rng& r, const std::string&) {
 		for (int e = 0; e < ep; ++e) {
 			TAOpts o; o.max_states = r.chance(1, 8) ? r.range(8, 14) : r.range(1, 6); o.sparse = r.chance(1, 3);
 			if (r.chance(1, 2)) o.flavor = int(r.below(6));
+			if (r.chance(1, 3)) { o.flavor = 6; o.max_states = r.range(4, 8); }      // layered with back edges: deep witnesses, circular justifications possible
 			TA W = gen_ta(r, pool, o); int a = g.load(W, 0);
 			g.push(mk(c, "et_witness", {a}), 0);
 			if (r.chance(1, 6)) g.push(cli_step(r, c, 0, 4, mdl::to_lit(W), ""));      // vata witness
